@@ -439,3 +439,98 @@ def is_sliced_closure(b, facts=None):
     if not ins or len(ins) != 1:
         return False
     return ins[0] in ("(&mut [%s], &[&[%s]])" % (fl, fl),) and b.get("closure_output") == "()"
+
+
+# ----------------------------------------------------------------------------------
+# context-carrying traversal (control dependence read off THIR nesting)
+
+def walk_ctx(n, ctx=()):
+    """Yield (node, ctx) for every expression node under n.  ctx is a tuple of frames:
+    ('if', if_node, 'cond'|'then'|'else'), ('arm', match_node, index), ('guard', match_node, index),
+    ('loop', loop_node), ('let-else', stmt).  Structured control flow only: a node is
+    executed only if every enclosing frame's branch is taken."""
+    if n is None:
+        return
+    yield n, ctx
+    k = n.get("k")
+    if k == "If":
+        for x in walk_ctx(n["cond"], ctx + (("if", n, "cond"),)):
+            yield x
+        for x in walk_ctx(n["then"], ctx + (("if", n, "then"),)):
+            yield x
+        if n.get("else") is not None:
+            for x in walk_ctx(n["else"], ctx + (("if", n, "else"),)):
+                yield x
+        return
+    if k == "Match":
+        for x in walk_ctx(n["scrutinee"], ctx):
+            yield x
+        for i, a in enumerate(n["arms"]):
+            if a.get("guard") is not None:
+                for x in walk_ctx(a["guard"], ctx + (("guard", n, i),)):
+                    yield x
+            for x in walk_ctx(a["body"], ctx + (("arm", n, i),)):
+                yield x
+        return
+    if k == "Loop":
+        for x in walk_ctx(n["body"], ctx + (("loop", n),)):
+            yield x
+        return
+    if k == "LogicalOp":
+        for x in walk_ctx(n["l"], ctx):
+            yield x
+        for x in walk_ctx(n["r"], ctx + (("logic", n, n["op"]),)):
+            yield x
+        return
+    for ch in kids(n):
+        for x in walk_ctx(ch, ctx):
+            yield x
+
+
+def bindings_of(root):
+    """var -> ('let', init_expr) | ('pat', scrutinee_expr, path, owner_node) for every
+    binding introduced inside root (let statements, match arms, if-let)."""
+    out = {}
+    for n in walk(root):
+        k = n.get("k")
+        if k == "Block":
+            for s in n["stmts"]:
+                if s["s"] == "let":
+                    for v, name, ty, path in pat_bindings(s["pat"]):
+                        if not path:
+                            out[v] = ("let", s.get("init"))
+                        else:
+                            out[v] = ("pat", s.get("init"), path, s)
+        elif k == "Match":
+            for a in n["arms"]:
+                for v, name, ty, path in pat_bindings(a["pat"]):
+                    out[v] = ("pat", n["scrutinee"], path, n)
+        elif k == "Let":
+            for v, name, ty, path in pat_bindings(n["pat"]):
+                out[v] = ("pat", n["e"], path, n)
+    return out
+
+
+def for_loop_parts(n):
+    """If n is the desugaring of `for PAT in ITER { BODY }` return (iter_expr, pat, body)."""
+    n = strip(n)
+    if n.get("k") != "Match" or not n.get("source", "").startswith("ForLoopDesugar"):
+        return None
+    it = strip(n["scrutinee"])
+    if it.get("k") == "Call" and callee(it) == "core::iter::traits::collect::IntoIterator::into_iter":
+        it = it["args"][0]
+    try:
+        loop = strip(n["arms"][0]["body"])
+        inner = strip(loop["body"])
+        # loop { match next(&mut iter) { None => break, Some(pat) => body } }
+        while inner.get("k") == "Block":
+            if inner["stmts"]:
+                inner = strip(inner["stmts"][0]["e"]) if inner["stmts"][0]["s"] == "expr" else None
+            else:
+                inner = strip(inner["e"])
+        for a in inner["arms"]:
+            if a["pat"].get("k") == "Variant" and a["pat"]["variant"] == "Some":
+                return it, a["pat"]["subs"][0]["pat"], a["body"], loop
+    except (KeyError, IndexError, TypeError, AttributeError):
+        return None
+    return None
